@@ -30,7 +30,7 @@ func genTerm(t *rapid.T) termCase {
 	sc.Cfg.RetryDelayMs = rapid.SampledFrom([]int{1000, 10000}).Draw(t, "retry")
 	sc.Cfg.Predef = map[string]map[uint16]string{"*": {1: "p/one"}}
 	sc.Auto = gwsim.Auto{Connack: gwgen.U8(0), BrokerAcks: true, ClientRegack: true, ClientAcks: true, BrokerPubrel: true, Suback: "grant"}
-	c.Prefix = rapid.SampledFrom([]string{"fresh", "midconnect", "active", "active", "active", "asleep", "asleep-pinger", "awake", "reconnected"}).Draw(t, "prefix")
+	c.Prefix = rapid.SampledFrom([]string{"fresh", "midconnect", "active", "active", "active", "asleep", "asleep-pinger", "resleep", "awake", "reconnected"}).Draw(t, "prefix")
 	keepalive := uint16(rapid.SampledFrom([]int{10, 60}).Draw(t, "keepalive"))
 	add := func(s ...gwsim.Step) { sc.Steps = append(sc.Steps, s...) }
 	switch c.Prefix {
@@ -80,7 +80,16 @@ func genTerm(t *rapid.T) termCase {
 		case "asleep":
 			add(gwgen.SN(gwgen.Disconnect(keepalive / 2)))
 		case "asleep-pinger":
-			add(gwgen.SN(gwgen.Disconnect(keepalive*3)), gwgen.Adv(int64(rapid.SampledFrom([]int{100, 1500}).Draw(t, "slept"))))
+			// (durations whose low or high byte is zero included)
+			dur := rapid.SampledFrom([]uint16{keepalive * 3, keepalive * 3, 256, 512, 0xff00, 0x0101}).Draw(t, "longsleep")
+			add(gwgen.SN(gwgen.Disconnect(dur)), gwgen.Adv(int64(rapid.SampledFrom([]int{100, 1500}).Draw(t, "slept"))))
+		case "resleep":
+			// asleep, optionally woken up once, then a new sleep duration is announced while still asleep
+			add(gwgen.SN(gwgen.Disconnect(keepalive/2)), gwgen.Adv(int64(rapid.SampledFrom([]int{100, 1500}).Draw(t, "slept"))))
+			if rapid.Bool().Draw(t, "wake_between") {
+				add(gwgen.SN(gwgen.Pingreq("cl")), gwgen.Adv(200))
+			}
+			add(gwgen.SN(gwgen.Disconnect(rapid.SampledFrom([]uint16{keepalive / 2, keepalive * 3, 256}).Draw(t, "resleep_dur"))), gwgen.Adv(300))
 		case "awake", "reconnected":
 			add(gwgen.SN(gwgen.Disconnect(keepalive*rapid.SampledFrom([]uint16{1, 3}).Draw(t, "sleepk"))), gwgen.Adv(500),
 				gwgen.MQ(gwgen.BPublish("ab", 0, 0, []byte("while asleep"), false, false)),
@@ -139,7 +148,7 @@ func causeEvent(tr *gwsim.Trace, step int) (int, *gwsim.Event) {
 func TestC13(t *testing.T) {
 	vf.Check(t, vf.Prop[termCase]{
 		ID: "C13", Name: "clean-termination", Bubble: true,
-		Rule: "a session prefix (fresh / mid connect exchange with the broker silent or WILL*/AUTH outstanding / active with 0-4 operations some left pending: unacknowledged client QoS 1 publish, unacknowledged broker QoS 1/2 publish, unacknowledged gateway REGISTER / asleep without and with a running sleep pinger / after a wake-up / reconnected after a wake-up) followed, after a drawn pause around the poll interval, by one termination cause: gateway shutdown, client plain DISCONNECT, broker closing the connection, undecodable datagram, illegal packet while disconnected, undecodable MQTT bytes. Non-trivial = cause other than a clean DISCONNECT of an idle active session, or pending exchanges/pinger at the cause; distinct by (prefix, cause, pending, script).",
+		Rule: "a session prefix (fresh / mid connect exchange with the broker silent or WILL*/AUTH outstanding / active with 0-4 operations some left pending: unacknowledged client QoS 1 publish, unacknowledged broker QoS 1/2 publish, unacknowledged gateway REGISTER / asleep without and with a running sleep pinger (sleep durations with a zero low or high byte included) / asleep and announcing a new sleep duration / after a wake-up / reconnected after a wake-up) followed, after a drawn pause around the poll interval, by one termination cause: gateway shutdown, client plain DISCONNECT, broker closing the connection, undecodable datagram, illegal packet while disconnected, undecodable MQTT bytes. Non-trivial = cause other than a clean DISCONNECT of an idle active session, or pending exchanges/pinger at the cause; distinct by (prefix, cause, pending, script).",
 		Assumptions: []string{"bound: run returns within 100 ms (poll interval) + 1 ms of the cause on the virtual clock; sends are instantaneous on the in-memory links",
 			"the DISCONNECT-count clause is asserted in model states on which specification and implementation cannot disagree (never connected, active, asleep before the first wake-up); after a wake-up only termination, close and the goroutine census are asserted",
 			"the 'broker unreachable' cause needs a real dial and is checked by the separate part dial-failure"},
@@ -172,6 +181,19 @@ func checkTermination(which string, c termCase, tr *gwsim.Trace, r *vf.Result) {
 	if ce == nil {
 		r.Fail("harness", "cause step left no event")
 		return
+	}
+	if which == "C14" {
+		// at any point of the history: an MQTT DISCONNECT needs a plain client DISCONNECT before it
+		plain := false
+		for _, e := range tr.Events {
+			if e.Dir == gwsim.CG && e.SN != nil && e.SN.Type == snref.DISCONNECT && e.SN.Duration == 0 {
+				plain = true
+			}
+			if e.Dir == gwsim.GB && e.MQ != nil && e.MQ.Type == mqttref.DISCONNECT && !plain {
+				r.Fail("mqtt-disconnect-without-client-disconnect/"+c.Cause+"/"+c.Prefix, "broker got an MQTT DISCONNECT although the client has sent no DISCONNECT without duration (the will is cancelled)\n%s", tr.Dump(30))
+				return
+			}
+		}
 	}
 	// the session may already have ended before the cause (e.g. connect timeout in a long pause): then nothing is owed
 	if tr.Ended && tr.EndNs < ce.Ns {
@@ -214,7 +236,7 @@ func checkTermination(which string, c termCase, tr *gwsim.Trace, r *vf.Result) {
 			}
 		case "active":
 			want = 1
-		case "asleep", "asleep-pinger":
+		case "asleep", "asleep-pinger", "resleep":
 			want = 0
 			if c.Cause == "disconnect" {
 				want = 1
